@@ -160,7 +160,7 @@ class CouplingAnalysisPurePython:
                 std(axis=1).reshape(self.N, 1)
 
             #  Correct for grid points with zero variance in their time series
-            normalized_array[t][numpy.isnan(normalized_array[t])] = 0
+            normalized_array[t][~numpy.isfinite(normalized_array[t])] = 0
 
         return self._calculate_cc(normalized_array, tau_max=tau_max,
                                   lag_mode=lag_mode)
@@ -197,7 +197,7 @@ class CouplingAnalysisPurePython:
         sample_array[0] = array[:, :corr_range]
         sample_array[0] -= sample_array[0].mean(axis=1).reshape(self.N, 1)
         sample_array[0] /= sample_array[0].std(axis=1).reshape(self.N, 1)
-        sample_array[0, numpy.isnan(sample_array[0])] = 0
+        sample_array[0, ~numpy.isfinite(sample_array[0])] = 0
 
         res = self._calculate_cc(sample_array, tau_max=0, lag_mode='all')
 
@@ -240,7 +240,7 @@ class CouplingAnalysisPurePython:
             sample_array[t] = self.dataarray[:, perm + tau]
             sample_array[t] -= sample_array[t].mean(axis=1).reshape(self.N, 1)
             sample_array[t] /= sample_array[t].std(axis=1).reshape(self.N, 1)
-            sample_array[t][numpy.isnan(sample_array[t])] = 0
+            sample_array[t][~numpy.isfinite(sample_array[t])] = 0
 
         return self._calculate_cc(sample_array, tau_max=tau_max,
                                   lag_mode=lag_mode)
